@@ -155,7 +155,7 @@ def resolve_opts(opts, numpoly):
 
 
 NAME_DEPENDENT = {"gradient", "hessian", "exponents", "lead_exponent", "indeterminants", "set_dimensions",
-                  "todict", "decompose"}
+                  "todict", "decompose", "aspolynomial-args"}
 # accessors of the representation itself: the number of stored terms / name columns is exactly
 # what the retain options decide
 REPRESENTATION = {"coefficients", "exponents", "todict", "decompose"}
